@@ -27,14 +27,14 @@ import (
 )
 
 type bdbCase struct {
-	Seed     uint64 `json:"seed"`
-	Blocks   int    `json:"blocks"`
-	Size     int    `json:"size"`
-	Compress bool   `json:"compress"`
-	MaxFile  uint64 `json:"max_data_file"`
-	FlushEvery int  `json:"flush_every"`
-	Readers  int    `json:"readers"`
-	Procs    int    `json:"gomaxprocs"`
+	Seed       uint64 `json:"seed"`
+	Blocks     int    `json:"blocks"`
+	Size       int    `json:"size"`
+	Compress   bool   `json:"compress"`
+	MaxFile    uint64 `json:"max_data_file"`
+	FlushEvery int    `json:"flush_every"`
+	Readers    int    `json:"readers"`
+	Procs      int    `json:"gomaxprocs"`
 }
 
 func init() {
